@@ -56,6 +56,8 @@ def value_of(tid):
 def body(tid, kind, arg=None):
     _log("start", tid)
     try:
+        tr = esim.S.__dict__.setdefault("tasks_run", {})
+        tr[esim.my_proc()] = tr.get(esim.my_proc(), 0) + 1
         esim.S.step("task.run")
         if kind == "ok":
             return value_of(tid)
